@@ -38,7 +38,11 @@ type c13Metrics struct {
 }
 
 func newC13Sys(s *vrt.Sched, strategy string, breaker, limiter bool) *c13Sys {
-	o := lbp.VKitOpts{Strategy: strategy, N: 2, PassiveThr: 2, Window: 10}
+	return newC13SysN(s, strategy, 2, breaker, limiter)
+}
+
+func newC13SysN(s *vrt.Sched, strategy string, n int, breaker, limiter bool) *c13Sys {
+	o := lbp.VKitOpts{Strategy: strategy, N: n, PassiveThr: 2, Window: 10}
 	if breaker {
 		o.Breaker = &config.CircuitBreakerConfig{Enabled: true, MaxRequests: 1, IntervalSeconds: 5, TimeoutSeconds: 3, FailureThreshold: 3, SuccessThreshold: 1}
 	}
@@ -182,6 +186,44 @@ func TestVerifC13H(t *testing.T) {
 			i++
 		}
 	}
+	// deployment size: the numbers must add up for every pool below the documented cap of 1000
+	// backends, not only for the two-backend pools of the history search. Sizes sit on both
+	// sides of every bound and power of two a per-backend table could have.
+	sizes := []int{3, 101, 999}
+	if vres.Thorough() {
+		sizes = []int{1, 3, 16, 17, 64, 65, 99, 100, 101, 128, 129, 255, 256, 257, 500, 512, 513, 998, 999}
+	}
+	for _, n := range sizes {
+		if vh.MyShard(i) {
+			c13Deployment(r, n)
+		}
+		i++
+	}
+}
+
+// c13Deployment: a pool of n backends under round_robin; every backend is sent requests of
+// three kinds (ok, 500, 404) in turn; the published numbers are audited at the end and after
+// the first round.
+func c13Deployment(r *vres.Report, n int) {
+	start := time.Now()
+	var evals int64
+	vh.RunSeq(r, "C13/sequential", func(s *vrt.Sched) {
+		y := newC13SysN(s, "round_robin", n, false, false)
+		for round, mode := range []string{"ok", "404", "500"} {
+			for k := 0; k < n; k++ {
+				y.issued++
+				y.k.RequestMode("10.0.0.1", mode)
+				evals++
+			}
+			if key, w := y.audit(map[string]int{}); key != "" {
+				r.Violate(key+"/deployment-size", fmt.Sprintf("round_robin pool of %d backends, after round %d (%d requests answered %s, one per backend): %s", n, round+1, n, mode, w), n, map[string]interface{}{"engine": "H", "test": "TestVerifC13H", "deployment": n})
+				return
+			}
+		}
+	})
+	r.AddScenario(vres.Scenario{Name: fmt.Sprintf("accounting-deployment-of-%d", n), Engine: "H", Executions: 1, States: 3, Transitions: evals, Outcomes: 1,
+		Bound: fmt.Sprintf("pool of %d backends (documented cap 1000), 3 rounds of one request per backend (ok, 404, 500), audit after each round", n), Exhaustive: true,
+		Extra: map[string]interface{}{"wall_s": time.Since(start).Seconds()}})
 }
 
 // ---------------------------------------------------------------- concurrent part
